@@ -16,15 +16,17 @@ func init() {
 		Title:       "No data races or interleaved writes under concurrent use",
 		DesignRef:   "DESIGN.md §3 C09",
 		Technique:   "field-based lockset analysis over go/ssa with may-happen-in-parallel contexts taken from the source (handler || handler, packet loop after 'go forward' || forward, gRPC method || gRPC method): every access to a location written on a request path must hold the location's mutex (exclusive for writes), or the location is internally synchronised or written only at start-up; single-writer third-party APIs on shared receivers count as writes; Lock/Unlock pairing on all exits",
-		LevelText:   "Static: (1) every package-level variable that request-serving code writes is accessed, in request-serving code, only while its mutex is held (writes under the exclusive lock); (2) every Tunnel field that both the packet loop's side and the relay goroutine's side touch, with at least one write, is accessed only under the tunnel's write mutex, and the outbound transport's writer (WritePacket) is called on the shared tunnel only under that mutex; (3) no request-serving code stores to fields of process-wide singletons (Gateway, web Handler, OIDC, proxies, auth handlers); (4) every Lock is released on all exits; (5) the legacy OUT->IN hand-off publishes the tunnel through go-cache after its last write. A lockset analysis is sound for the frozen location set and conservative for new sharing; orderings that exist only through protocol behaviour are named as such.",
+		LevelText:   "Static: (1) every package-level variable that request-serving code writes is accessed, in request-serving code, only while its mutex is held (writes under the exclusive lock); (2) every Tunnel field that both the packet loop's side and the relay goroutine's side touch, with at least one write, is accessed only under the tunnel's write mutex, and the outbound transport's writer (WritePacket) is called on the shared tunnel only under that mutex; (3) no request-serving code stores to fields of process-wide singletons (Gateway, web Handler, OIDC, proxies, auth handlers); (4) every Lock is released on all exits; (5) the legacy OUT->IN hand-off publishes the tunnel through go-cache after its last write; (6) the client connections are written by no first-party code other than Transport.WritePacket (a close frame or ping written elsewhere would bypass the tunnel mutex); (7) no function hands an object back to a sync.Pool while returning, storing or sending memory that aliases it. A lockset analysis is sound for the frozen location set and conservative for new sharing; orderings that exist only through protocol behaviour are named as such.",
 		LevelNote:   "Trusted: sync.Mutex semantics, internal synchronisation of go-cache, prometheus collectors, channels. Not decided: races inside dependencies (gokrb5's randServOrder permutes the shared config slice), actual schedules. Named orderings: ntlmContext.session is shared only between requests of one NTLM session id (the client's TCP address; HTTP/1.1 requests on one connection are sequential, HTTP/2 is disabled in main).",
-		Explanation: "C09/globals inventories stores, map updates and deletes through package variables in request-reachable functions and checks the lock held at every request-reachable access of those variables. C09/tunnel intersects the Tunnel fields touched from forward's call tree with those touched from Process's call tree. C09/singletons inventories stores to fields of singleton types. C09/lock-pairing pairs every Lock/RLock with its Unlock/RUnlock. C09/handoff checks the publication order in the legacy handler.",
+		Explanation: "C09/globals inventories stores, map updates and deletes through package variables in request-reachable functions and checks the lock held at every request-reachable access of those variables. C09/tunnel intersects the Tunnel fields touched from forward's call tree with those touched from Process's call tree. C09/singletons inventories stores to fields of singleton types. C09/lock-pairing pairs every Lock/RLock with its Unlock/RUnlock. C09/handoff checks the publication order in the legacy handler. C09/conn-writers is a who-may-call rule over the gorilla/websocket write family and the hijacked connection. C09/pool-alias follows values derived from a pooled object to returns, stores and sends.",
 		Assumptions: []string{"HTTP/2 stays disabled (TLSNextProto set to an empty map in main), so requests on one connection are sequential"},
 		Rules: []RuleDef{
 			{"C09/globals", "package variables written on request paths are accessed only under their mutex (writes exclusive)", c09Globals},
 			{"C09/tunnel", "Tunnel state shared between the packet loop and the relay goroutine is accessed only under the tunnel's write mutex; WritePacket on the shared tunnel only under it", c09Tunnel},
 			{"C09/singletons", "no request-serving store to fields of process-wide singletons", c09Singletons},
 			{"C09/lock-pairing", "every Lock/RLock is released on all exits", c09LockPairing},
+			{"C09/conn-writers", "client connections are written only by Transport.WritePacket (which C09/tunnel shows runs under the tunnel's write mutex)", c09ConnWriters},
+			{"C09/pool-alias", "no object is returned to a sync.Pool while memory aliasing it is returned, stored or sent", c09PoolAlias},
 			{"C09/handoff", "legacy hand-off: the OUT handler's last write precedes publication in the cache; HTTP/2 disabled", c09Handoff},
 		},
 	})
@@ -498,4 +500,106 @@ func c09Handoff(c *Ctx) {
 		}
 	})
 	c.Check(h2off, rule, "main http2-disabled", mainFn.Pos(), "TLSNextProto is an empty map: requests on one connection are sequential", "HTTP/2 is no longer disabled: requests of one connection (one NTLM session id) can run concurrently")
+}
+
+// c09ConnWriters: who-may-call on the client connections. gorilla/websocket allows one writer at a
+// time and a hijacked net.Conn interleaves concurrent writes; the only writer of a tunnel's client
+// connection once the relay runs is Transport.WritePacket, which C09/tunnel shows is called under the
+// tunnel's write mutex. Any other first-party call that writes to such a connection (a close frame
+// in Close(), a ping from another goroutine) bypasses that mutex.
+func c09ConnWriters(c *Ctx) {
+	rule := "C09/conn-writers"
+	gorilla := "github.com/gorilla/websocket"
+	writeFamily := map[string]bool{"WriteMessage": true, "WriteControl": true, "NextWriter": true, "WriteJSON": true, "WritePreparedMessage": true}
+	n := 0
+	for _, f := range c.allFirstPartyFuncs() {
+		for _, ci := range callsIn(f) {
+			name := calleeName(ci)
+			if strings.HasPrefix(name, "(*"+gorilla+".Conn).") {
+				m := name[strings.LastIndex(name, ".")+1:]
+				if !writeFamily[m] {
+					continue
+				}
+				n++
+				sf := shortFn(f)
+				c.Check(sf == "(*cmd/rdpgw/transport.WSPKT).WritePacket" || strings.HasPrefix(sf, "cmd/rdpgw/protocol.(*ClientConfig)") || strings.Contains(sf, "protocol.ClientConfig"), rule, "websocket "+m+" in "+sf, ci.Pos(),
+					"the websocket is written only by WritePacket (serialised by the tunnel's write mutex)", "a websocket write ("+m+") outside WSPKT.WritePacket: it is not serialised with the relay goroutine's packet writes (gorilla/websocket panics on concurrent writers; packets interleave)")
+			}
+			// hijacked legacy connection: LegacyPKT.Conn.Write only in WritePacket (SendAccept/Drain use the bufio halves before the relay starts)
+			if ci.Common().IsInvoke() && ci.Common().Method.Name() == "Write" {
+				if _, fld, ok := fieldLoad(strip(ci.Common().Value)); ok && fld.Name() == "Conn" && fld.Pkg() != nil && fld.Pkg().Path() == transportPkg {
+					n++
+					sf := shortFn(f)
+					c.Check(sf == "(*cmd/rdpgw/transport.LegacyPKT).WritePacket", rule, "legacy Conn.Write in "+sf, ci.Pos(), "the hijacked connection is written only by WritePacket", "the hijacked connection is written outside LegacyPKT.WritePacket: not serialised with the relay's packet writes")
+				}
+			}
+		}
+	}
+	c.Floor(rule, 2, "WSPKT.WritePacket, LegacyPKT.WritePacket")
+	_ = n
+}
+
+// c09PoolAlias: an object handed back to a sync.Pool must not stay referenced: a function that Puts
+// (or defers the Put of) an object and returns, stores or sends something that aliases it lets two
+// goroutines use the same memory (the classic pooled-buffer race).
+func c09PoolAlias(c *Ctx) {
+	rule := "C09/pool-alias"
+	n := 0
+	for _, f := range c.allFirstPartyFuncs() {
+		for _, ci := range callsIn(f) {
+			if calleeName(ci) != "(*sync.Pool).Put" {
+				continue
+			}
+			n++
+			obj := strip(arg(ci, 0))
+			// values that alias the pooled object: the object itself, slices of it, results of its methods
+			// that hand out internal storage (slices, pointers, maps)
+			aliases := map[ssa.Value]bool{obj: true}
+			eachInstr(f, func(in ssa.Instruction) {
+				switch x := in.(type) {
+				case *ssa.Slice:
+					if strip(x.X) == obj {
+						aliases[x] = true
+					}
+				case *ssa.Call:
+					if len(x.Call.Args) > 0 && strip(x.Call.Args[0]) == obj && !x.Call.IsInvoke() || x.Call.IsInvoke() && strip(x.Call.Value) == obj {
+						switch x.Type().Underlying().(type) {
+						case *types.Slice, *types.Pointer, *types.Map:
+							aliases[x] = true
+						}
+					}
+				}
+			})
+			escapes := ""
+			eachInstr(f, func(in ssa.Instruction) {
+				switch x := in.(type) {
+				case *ssa.Return:
+					for _, r := range x.Results {
+						if aliases[strip(unspill(r))] {
+							escapes = "returned"
+						}
+						for _, o := range origins(r) {
+							if o.Value != nil && aliases[strip(o.Value)] {
+								escapes = "returned"
+							}
+						}
+					}
+				case *ssa.Store:
+					if aliases[strip(x.Val)] {
+						if _, isAlloc := x.Addr.(*ssa.Alloc); !isAlloc {
+							escapes = "stored"
+						}
+					}
+				case *ssa.Send:
+					if aliases[strip(x.X)] {
+						escapes = "sent on a channel"
+					}
+				}
+			})
+			c.Check(escapes == "", rule, "Pool.Put in "+shortFn(f), ci.Pos(), "nothing that aliases the pooled object outlives the Put", "the object is handed back to the pool while memory that aliases it is "+escapes+": the next Get (another tunnel's goroutine) overwrites bytes that are still being written to a client")
+		}
+	}
+	if n == 0 {
+		c.OKTrivial(rule, "no sync.Pool", token.NoPos, "first-party code recycles no objects through sync.Pool")
+	}
 }
